@@ -139,7 +139,11 @@ func runDev(args []string) int {
 	if v, ok := params["PREEMPT"]; ok {
 		bud.Preempt = int(v)
 	}
-	res, err := runHarness(ld, entry, importPath(pkgDir), entry, RunOpts{Params: params, Budgets: bud, Workers: workers, TimeoutMs: 10000, Seed: 1, MaxSample: 3})
+	maxPaths := 0
+	if v := os.Getenv("VERIF_MAXPATHS"); v != "" {
+		fmt.Sscan(v, &maxPaths)
+	}
+	res, err := runHarness(ld, entry, importPath(pkgDir), entry, RunOpts{Params: params, Budgets: bud, Workers: workers, TimeoutMs: 10000, Seed: 1, MaxSample: 3, MaxPaths: maxPaths})
 	if err != nil {
 		fmt.Println(err)
 		return 2
